@@ -228,8 +228,8 @@ func runC09(r *Report) {
 					for i, hp := range h.Params {
 						if i < len(hc.Common().Args) {
 							a := originSummary(hc.Common().Args[i])
-							o = strings.ReplaceAll(o, "(param:"+hp.Name()+")", "("+a+")")
-							if o == "param:"+hp.Name() {
+							o = strings.ReplaceAll(o, "(param:"+canonParamName(hp)+")", "("+a+")")
+							if o == "param:"+canonParamName(hp) {
 								o = a
 							}
 						}
